@@ -33,6 +33,12 @@ def wrapContentB (cfg : Config) (ft ft' : FT) : Bool :=
     t'.tok.kind == t.tok.kind && t'.fmt.ignored == t.fmt.ignored &&
     t'.tok.content == mlsTok cfg.settings cfg.fmtMls t t'.fmt.ind t'.fmt.cont) ft ft'
 
+/-- ignored tokens pass the wrapper stage untouched (flag, original whitespace, text), and no further
+    token becomes ignored (C07) -/
+def wrapIgnoredB (ft ft' : FT) : Bool :=
+  all2B (fun t t' => t'.fmt.ignored == t.fmt.ignored &&
+    (!t.fmt.ignored || (t'.tok.ws == t.tok.ws && t'.tok.content == t.tok.content))) ft ft'
+
 /-- side conditions of the reconstruction theorems, evaluated on the final token list -/
 def isSingleLineCommentK : Kind → Bool
   | .tComment .cInlineLine => true
